@@ -8,6 +8,12 @@ from msmart.device.AC.device import AirConditioner as AC
 from msmart.lan import AuthenticationError
 
 
+def cbc_encrypt(key, plain):
+    """AES-CBC, zero IV - the library's cipher primitive itself, not the repository's wrapper"""
+    from Crypto.Cipher import AES
+    return AES.new(key, AES.MODE_CBC, iv=bytes(16)).encrypt(plain)
+
+
 def rb(rng, n):
     return bytes(rng.randrange(256) for _ in range(n))
 
@@ -291,6 +297,38 @@ def run(ctx):
         def mk(d, k, nn, c, t=t):
             return hs_packet(genuine_payload(ctx, k, nn), ptype=t, counter=c)
         scenario_run(ctx, "type", f"type {t:x}", mk, False, rng.random() < 0.3)
+    # every bit of the reply packet's fixed header fields: start marker (bytes 0, 1), size (2, 3), magic (4), type nibble (5);
+    # the padding nibble and the counter are the device's to choose and carry no proof - they are not alterations
+    for i in range(6):
+        for b in range(8):
+            if i == 5 and b >= 4:
+                continue
+
+            def mk(d, k, nn, c, i=i, b=b):
+                p = bytearray(hs_packet(genuine_payload(ctx, k, nn), counter=c))
+                p[i] ^= 1 << b
+                return bytes(p)
+            for pre in ((False, True) if thorough else (bool((i + b) % 2),)):
+                scenario_run(ctx, "header_bits", f"bit {b} of header byte {i}", mk, False, pre)
+    # a whole field of the 64-byte reply blanked or saturated (a decoder that skips a check when a field "is not there")
+    for what, lo, hi in (("ciphertext", 0, 32), ("hash", 32, 64), ("all", 0, 64), ("first block", 0, 16), ("last hash half", 48, 64)):
+        for fill in (0x00, 0xFF):
+            def mk(d, k, nn, c, lo=lo, hi=hi, fill=fill):
+                p = bytearray(genuine_payload(ctx, k, nn))
+                p[lo:hi] = bytes([fill]) * (hi - lo)
+                return hs_packet(bytes(p), counter=c)
+            for pre in (False, True):
+                scenario_run(ctx, "blanked", f"{what} = {fill:02x}", mk, False, pre)
+    # replies that are related to the KEY itself without proving anything: the plaintext is the key, zero, the token half
+    for what in ("key", "zero", "key^ff"):
+        for hashkind in ("random", "zero", "of-something-else"):
+            def mk(d, k, nn, c, what=what, hashkind=hashkind):
+                plain = {"key": k, "zero": bytes(32), "key^ff": bytes(x ^ 0xFF for x in k)}[what]
+                ct = cbc_encrypt(k, plain)
+                h = {"random": rb(rng, 32), "zero": bytes(32),
+                     "of-something-else": __import__("hashlib").sha256(plain + b"x").digest()}[hashkind]
+                return hs_packet(bytes(ct) + h, counter=c)
+            scenario_run(ctx, "related_plaintext", f"plaintext {what}, hash {hashkind}", mk, False, what == "zero")
     scenario_run(ctx, "type", "error packet", lambda d, k, n, c: simdev.ERROR_PACKET, False, False)
     scenario_run(ctx, "type", "error packet (reauth)", lambda d, k, n, c: simdev.ERROR_PACKET, False, True)
     # replies produced under a different key
@@ -314,12 +352,18 @@ def run(ctx):
             data = data[:rng.randrange(0, 80)]
         elif r < 0.5:
             data += rb(rng, rng.randrange(1, 17))
+        elif r < 0.6:
+            lo, hi = rng.choice([(0, 32), (32, 64), (0, 64), (0, 16), (48, 64), (32, 33), (63, 64)])
+            data[lo:hi] = bytes([rng.choice([0, 0xFF])]) * (hi - lo)
+        elif r < 0.65:
+            plain = rng.choice([key, bytes(32), nonce])
+            data = bytearray(cbc_encrypt(key, plain) + rng.choice([bytes(32), rb(rng, 32), bytes(data[32:])]))
         impl = lanimpl.v3_local_key(key, bytes(data))
         m = ctx.driver.ask(f"v3_local_key key={hx(key)} data={hx(bytes(data))}")
         if impl != m:
             ctx.disagree("local_key", {"key": hx(key), "data": hx(bytes(data))}, impl, m)
         want = ctx.driver.ask(f"spec_v3_session_key key={hx(key)} nonce={hx(nonce)}")
-        if r >= 0.3 and len(data) == 64 and impl != want:
+        if (r >= 0.65 or 0.3 <= r < 0.4) and len(data) == 64 and impl != want:
             ctx.violate("local_key", {"key": hx(key), "nonce": hx(nonce)}, impl, want, "session key differs from the device's nonce XOR key")
         ctx.case("local_key", key=hx(bytes(data)) + hx(key), sample={"len": len(data), "impl": impl[:20]})
 
